@@ -15,6 +15,9 @@ TRUSTED = ["rustc MIR", "leaf summaries (numerator/denominator accessors, intege
 
 def run(res, programs, tier):
     fdt_tables.r18_1(res, programs, "R18.1")
+    for P in programs:
+        if "dashu_ratio" in P.units:
+            _r18_3(res, P, P.name)
     _r18_2(res, programs)
     # the callers use it only to compare interval end points with the interior optimum
     res.rule("R18.1b", "simplest_from_float / impl_simplest_from_float consult is_simpler_than for exactly the included end points (incl_l -> left, incl_r -> right)")
@@ -153,6 +156,42 @@ def _r18_2(res, programs):
                 else:
                     res.fail("R18.2", cfgname, key, "%s returns (-%s, +%s, closed_left=%s, closed_right=%s); the reals that round to this float under mode %s are (-%s, +%s, closed_left=%s, closed_right=%s)" % (
                         key, got[0], got[1], got[2], got[3], mode, want[0], want[1], want[2], want[3]), mir.span_loc(fn["sp"]))
+
+
+# ---------------------------------------------------------------------------------------------
+# R18.3  the zero shortcut of simplest_in.  0 is the simplest member of an open interval only when the
+# interval straddles it: lower < 0 < upper.  The sign of the integer zero is Positive, so a sign
+# comparison alone takes (-1/2, 0) for a straddling interval and returns the end point 0 (F28).  Every
+# early `Repr::zero()` return must therefore sit on edges that decide is_zero() of *both* end points
+# (both non-zero with different signs, or both zero).
+def _r18_3(res, P, cfgname):
+    from . import mir, sym, guards
+    res.rule("R18.3", "Repr::simplest_in returns 0 early only on edges where is_zero() of both end points is decided (both non-zero, or both zero): zero as an end point is not inside the open interval")
+    path = "dashu_ratio::simplify::<impl dashu_ratio::repr::Repr>::simplest_in"
+    f = next((g for g in P.fns("dashu_ratio") if g["p"] == path), None)
+    if f is None:
+        res.anchor("R18.3", cfgname, "fn " + path)
+        return
+    b = f["mir"]
+    S = sym.Sym(f)
+    cfg = mir.cfg_of(b)
+    n = 0
+    for bb, t, fr in mir.iter_calls(b):
+        cp = fr and (fr.get("rp") or fr["p"])
+        if cp != "dashu_ratio::repr::Repr::zero" or t["d"]["l"] != 0 or t["d"].get("p"):
+            continue
+        n += 1
+        vals = {}
+        for c in guards.constraints_at(S, cfg, bb):
+            if c[0] == "bool" and isinstance(c[1], tuple) and c[1][0] == "call" and c[1][1].endswith("::is_zero"):
+                vals[sym.term_str(c[1], 300)] = c[2]
+        key = "simplest_in zero return #%d" % n
+        decided = list(vals.values())
+        if len(decided) >= 2 and (all(decided) or not any(decided)):
+            res.ok("R18.3", cfgname, key, sample=dict(function=path, is_zero_facts=decided))
+        else:
+            res.fail("R18.3", cfgname, key, "Repr::simplest_in returns 0 on a path that does not decide is_zero() of both end points (facts: %s): with 0 as an end point (sign Positive) the interval (-1/2, 0) is taken for one that straddles zero and the end point itself is returned" % (decided,), mir.span_loc(t["sp"]))
+    res.floor("R18.3", cfgname, n, 1, "early zero returns of simplest_in")
 
 
 LEVEL = LEVEL + " Also (R18.2) ErrorBounds::error_bounds of every mode returns the interval (with open / closed ends) of values that round back to the float, tabulated against the mode's definition; (R04.1, shared) the interval end points handed to the Farey walk are reduced."
